@@ -11,6 +11,8 @@ OUT=$(VERIF_EVIDENCE_DIR="$D/ev" REPO_LIB="$D/r/Lib" timeout 1800 ./check $ID --
 R=$(echo "$OUT" | sed 's/.*replay=//')
 if [ -z "$R" ]; then echo "NOT CAUGHT"; rm -rf "$D"; exit 1; fi
 echo "caught: $R"
-if ./check $ID --replay "$R" 2>&1 | grep -q "^VIOLATION"; then echo "replay also fails on the unchanged tree: not kept"; rm -rf "$D"; exit 2; fi
+RES=$(./check $ID --replay "$R" 2>&1)
+if echo "$RES" | grep -q "^VIOLATION"; then echo "replay also fails on the unchanged tree: not kept"; rm -rf "$D"; exit 2; fi
+if ! echo "$RES" | grep -q "property holds"; then echo "caught, but the case is outside the domain on the unchanged tree (not kept as a witness): $R"; rm -rf "$D"; exit 0; fi
 case "$R" in replays/*) echo "already a kept replay";; *) tools/keep_replay.py "$R" "$NAME" "$NOTE";; esac
 rm -rf "$D"
